@@ -129,6 +129,10 @@ def op_cases(draw, ops=None, dtypes=None, constraint=None, unsupported_rate=0.0,
         g = draw(st.sampled_from([1, 1, 2, 3]))
         cin = g * draw(st.integers(1, 3)); cout = g * draw(st.integers(1, 3))
         k = draw(st.integers(1, 4)); s = draw(st.integers(1, 3)); d = draw(st.integers(1, 3)); p = draw(st.integers(0, 3))
+        if draw(st.sampled_from(["general", "general", "general", "pointwise"])) == "pointwise":
+            # the pointwise / all-default geometry (a linear layer in disguise) is a corner of its own
+            g, k, s, d, p = 1, draw(st.sampled_from([1, 1, 3])), 1, 1, 0
+            cin, cout = draw(st.sampled_from([(1, 4), (5, 2), (3, 6), (6, 1), (2, 3), (4, 4)]))
         L = d * (k - 1) + 1 + draw(st.integers(0, 12))
         bb = draw(st.sampled_from([[], [1], [2], [3]]))
         c.update(x=bb + [cin, L], w=[cout, cin // g, k], bias=draw(st.booleans()), stride=s, padding=p, dilation=d, groups=g,
@@ -184,6 +188,7 @@ def op_cases(draw, ops=None, dtypes=None, constraint=None, unsupported_rate=0.0,
     c["noncontig"] = draw(st.sampled_from([False, False, False, "transposed", "expanded"]))  # operand memory layout (same values)
     c["positional"] = draw(st.integers(0, 3)) == 0  # every argument of the library call passed positionally (signature order)
     c["up_layout"] = draw(st.sampled_from(["dense", "dense", "dense", "partial-reduction"]))  # memory layout of the upstream gradient
+    c["history"] = draw(st.sampled_from([None, None, None, "other-constraint"]))  # an earlier call of the same op in this process
     c["frozen_role"] = draw(st.sampled_from([None, None, None, 0, 1, 2]))  # one operand (input / weight / bias ...) that does not require a gradient
     # the second data draw uses its own value profile: a scale that depends on magnitudes / sparsity is exposed
     c["profB"] = draw(st.sampled_from(profiles))
@@ -485,6 +490,13 @@ def probe(c: dict, want_bwd: bool = True, seeds: Optional[List[int]] = None, ups
         frozen = c["frozen_role"] % len(bu.ts) if (c.get("frozen_role") is not None and len(bu.ts) >= 2) else None
         tu = [t.clone().requires_grad_(i != frozen) for i, t in enumerate(bu.ts)]
         tr = [t.clone().requires_grad_(i != frozen) for i, t in enumerate(bu.ts)]
+        if c.get("history") == "other-constraint" and c.get("constraint", "default") != "default":
+            # the same geometry has been used before with another constraint (memoised scales must not carry over)
+            other = "to_output_scale" if c["constraint"] != "to_output_scale" else None
+            try:
+                build(dict(c, constraint=other), seed, prof=prof_i).u(*[t.clone() for t in bu.ts])
+            except Exception:  # noqa: BLE001
+                pass
         snap = [t.detach().clone() for t in tu]
         ver = [t._version for t in tu]
         try:
@@ -667,6 +679,8 @@ def class_labels(c: dict) -> List[str]:
         labs.append(f"sdpa:{c['mode']}")
     if c.get("frozen_role") is not None:
         labs.append("one-operand-without-grad")
+    if c.get("history") and c.get("constraint", "default") != "default":
+        labs.append("after-call-with-other-constraint")
     if c.get("up_layout", "dense") != "dense":
         labs.append("upstream=" + c["up_layout"])
     if c.get("noncontig"):
